@@ -479,8 +479,8 @@ def _eq(a, b):
 CHECK = Check(
     P, 'exploration',
     rule=('Hypothesis-generated histories of 2-7 operations over one pool (run with k batches, run with a partial last batch, fresh sampler '
-          'adopting the pool context, remove a store, replace a summary / the distance with the documented store removal, close+reopen an '
-          'on-disk pool, attempts with a wrong batch_size / seed incl. the literal seed 0) x stored set = any non-empty subset of {simulator, noise simulator, '
+          'adopting the pool context, remove a store, replace a summary / the distance with the documented store removal (store wiped and kept, or plain remove_store()), close+reopen an '
+          'on-disk pool - optionally after EVERY operation -, attempts with a wrong batch_size (also without a seed) / seed incl. the literal seed 0) x stored set = any non-empty subset of {simulator, noise simulator, '
           'summaries, discrepancy} optionally plus all parameters x in-memory / on-disk pools x models with an optional stochastic node '
           'that draws after the simulator. Non-trivial = a run that found at least one needed batch in the pool and needed at least one more. '
           'smc part: 2-4 SMC runs (n 3-8, 1-2 thresholds or quantiles, at most two distinct configurations per history) over one in-memory / on-disk pool '
